@@ -178,10 +178,14 @@ def run_trie_cases(ctx, cases, oracle=True):
 
 def mk_node(TestNode, param, Params, idx, cls, worker):
     n = TestNode(str(idx), param.Reparsable())
-    name = f"normal.cls{cls}.vms.vm1.nets.localhost.{worker}"
+    # as the shipped nets.cfg names them: containers of this host are `nets.localhost.netN` (id netN), the hosts of a
+    # cluster `nets.clusterK.netM` (id clusterK.netM); equivalent tests of BOTH kinds share one bridged form
+    net = f"nets.{worker}" if "." in worker else f"nets.localhost.{worker}"
+    name = f"normal.cls{cls}.vms.vm1.{net}"
     n._params_cache = Params({"name": name, "shortname": name, "main_restrictions": "normal minimal all leaves",
-                              "_name_map_file": {"nets.cfg": f"nets.localhost.{worker}"}})
-    n.objects = [object()]
+                              "nets": worker, "_name_map_file": {"nets.cfg": net}})
+    n.objects = [types.SimpleNamespace(key="nets", suffix=worker, long_suffix=worker, id=f"{worker}-{net}",
+                                       params=Params({"name": net, "shortname": worker}))]
     return n
 
 
@@ -271,6 +275,9 @@ def run_register_cases(ctx, cases, oracle=True):
 def gen_register_case(rng, disciplined):
     ncls = rng.randint(1, 3)
     workers = ["net1", "net2", "net3", "net4"][:rng.randint(1, 4)]
+    if rng.random() < 0.35:
+        # a mixed set: containers of this host next to hosts of one or two clusters
+        workers = rng.sample(["net1", "net2", "cluster1.net6", "cluster1.net7", "cluster2.net6"], rng.randint(2, 4))
     nodes = [(c, w) for c in range(ncls) for w in workers]
     rng.shuffle(nodes)
     ops = []
